@@ -246,16 +246,13 @@ theorem docOrder_at {h : Heap} {w : Wit} (hwf : WF h w) (x : Nat) {π : Nat} (hi
   have := hpos _ hj
   exact hwf.inj _ _ (by rw [this.2, hin.1]) (by have := hin.2.1; omega)
 
-/-- **the finished loop, both sides**: the parent of the clone of `d` is the clone of the parent of `d` -/
-theorem copy_parents {h h' : Heap} {x c : Nat} (hg : Good2 h) (hc : copy h x = .ok (h', c)) :
-    ∀ i d, 1 ≤ i → (docOrder h x)[i]? = some d →
-      ∃ π j, h.parent d = some π ∧ (docOrder h x)[j]? = some π ∧ j < i ∧ h'.parent (h.next + i) = some (h.next + j) := by
-  obtain ⟨⟨w, hwf⟩, hstr⟩ := hg
+/-- **the finished loop, both sides of the invariant**, for the witness `w` of the heap before the copy -/
+theorem copy_invs {h h' : Heap} {w : Wit} {x c : Nat} (hwf : WF h w) (hstr : ∀ n, h.next ≤ n → h.kind n = .str)
+    (hc : copy h x = .ok (h', c)) :
+    ∃ w' st', CInv h h.next h' w' st' (docOrder h x) ∧ SInv h w x h.next h' st' (docOrder h x) := by
   have hsz : w.size x ≤ h.cap + 1 := by have := hwf.size_cap x; omega
   obtain ⟨hlen, hpos⟩ : (docOrder h x).length = w.size x ∧ ∀ j (hj : j < (docOrder h x).length),
       w.pos (docOrder h x)[j] = w.pos x + j ∧ w.tree (docOrder h x)[j] = w.tree x := pre_consec' hwf h.cap x hsz
-  intro i d hi1 hid
-  have hilt : i < (docOrder h x).length := (List.getElem?_eq_some_iff.mp hid).1
   unfold copy at hc
   split at hc
   · obtain ⟨ds, hds, hdo, _⟩ := descendants_docOrder hwf x
@@ -267,39 +264,220 @@ theorem copy_parents {h h' : Heap} {x c : Nat} (hg : Good2 h) (hc : copy h x = .
       obtain ⟨e1, e2⟩ := hc
       subst e1 e2
       have hold := docOrder_tail_old hwf x
+      have heq : [x] ++ ds = docOrder h x := by rw [hdo]; rfl
       have hall : ∀ i d, ([x] ++ ds)[i]? = some d → w.tree d = w.tree x ∧ w.pos d = w.pos x + i := by
         intro i d hi
-        have heq : [x] ++ ds = docOrder h x := by rw [hdo]; rfl
         rw [heq] at hi
         obtain ⟨hi', rfl⟩ := List.getElem?_eq_some_iff.mp hi
         have := hpos i hi'
         exact ⟨this.2, this.1⟩
-      have hszl : ([x] ++ ds).length ≤ w.size x := by
-        have heq : [x] ++ ds = docOrder h x := by rw [hdo]; rfl
-        rw [heq]; omega
+      have hszl : ([x] ++ ds).length ≤ w.size x := by rw [heq]; omega
       obtain ⟨w', st', inv, sinv⟩ := copyLoop_sinv hwf ds _ _ w [] [x] (cinv_init hwf hstr x)
         (sinv_init h w x h.next _) (by simp) (fun d hd => hold d (by rw [hdo]; simpa using hd)) hall hszl hl
-      have heq : [x] ++ ds = docOrder h x := by rw [hdo]; rfl
-      rw [heq] at sinv
-      obtain ⟨π, hp1, hp2⟩ := sinv.par i d hid hi1
-      have hdi := hpos i hilt
-      have hdeq : (docOrder h x)[i] = d := by
-        have := List.getElem?_eq_getElem hilt; rw [hid] at this; exact (Option.some.inj this).symm
-      have hind : w.inSub x d := by
-        refine ⟨by rw [← hdeq]; exact hdi.2, by rw [← hdeq]; omega, ?_⟩
-        rw [← hdeq]; omega
-      have hxd : x ≠ d := by
-        intro hh; subst hh
-        have : w.pos (docOrder h x)[i] = w.pos x := by rw [hdeq]
-        omega
-      have hinπ := (inSub_parent hwf hp1 x).mp ⟨hxd, hind⟩
-      have hπd := wf_parent_pos' hwf hp1
-      refine ⟨π, w.pos π - w.pos x, hp1, docOrder_at hwf x hinπ, ?_, hp2⟩
-      have : w.pos d = w.pos x + i := by rw [← hdeq]; exact hdi.1
-      omega
+      rw [heq] at inv sinv
+      exact ⟨w', st', inv, sinv⟩
   · rename_i hnt
+    simp only [Except.ok.injEq, Prod.mk.injEq] at hc
+    obtain ⟨e1, e2⟩ := hc
+    subst e1 e2
     have hk : h.kids x = [] := hwf.str_leaf x (by simpa using hnt)
     have : docOrder h x = [x] := by unfold docOrder; cases h.cap <;> simp [pre, hk]
-    rw [this] at hilt; simp at hilt; omega
+    rw [this]
+    exact ⟨w, [], cinv_init hwf hstr x, sinv_init h w x h.next _⟩
+
+/-- the `i`-th element of the document order of `x`, in the witness -/
+theorem docOrder_elem {h : Heap} {w : Wit} (hwf : WF h w) (x : Nat) {i d : Nat} (hid : (docOrder h x)[i]? = some d) :
+    w.inSub x d ∧ w.pos d = w.pos x + i ∧ i < w.size x := by
+  have hsz : w.size x ≤ h.cap + 1 := by have := hwf.size_cap x; omega
+  obtain ⟨hlen, hpos⟩ : (docOrder h x).length = w.size x ∧ ∀ j (hj : j < (docOrder h x).length),
+      w.pos (docOrder h x)[j] = w.pos x + j ∧ w.tree (docOrder h x)[j] = w.tree x := pre_consec' hwf h.cap x hsz
+  obtain ⟨hi', rfl⟩ := List.getElem?_eq_some_iff.mp hid
+  have := hpos i hi'
+  exact ⟨⟨this.2, by omega, by omega⟩, this.1, by omega⟩
+
+/-- **parents correspond**: the parent of the clone of `d` is the clone of the parent of `d` -/
+theorem copy_parents {h h' : Heap} {x c : Nat} (hg : Good2 h) (hc : copy h x = .ok (h', c)) :
+    ∀ i d, 1 ≤ i → (docOrder h x)[i]? = some d →
+      ∃ π j, h.parent d = some π ∧ (docOrder h x)[j]? = some π ∧ j < i ∧ h'.parent (h.next + i) = some (h.next + j) := by
+  obtain ⟨⟨w, hwf⟩, hstr⟩ := hg
+  obtain ⟨w', st', inv, sinv⟩ := copy_invs hwf hstr hc
+  intro i d hi1 hid
+  obtain ⟨π, hp1, hp2⟩ := sinv.par i d hid hi1
+  obtain ⟨hind, hdpos, _⟩ := docOrder_elem hwf x hid
+  have hxd : x ≠ d := by intro hh; subst hh; omega
+  have hinπ := (inSub_parent hwf hp1 x).mp ⟨hxd, hind⟩
+  have hπd := wf_parent_pos' hwf hp1
+  exact ⟨π, w.pos π - w.pos x, hp1, docOrder_at hwf x hinπ, by omega, hp2⟩
+
+/-! ### children lists correspond -/
+
+theorem tiles_sorted (pos size : Nat → Nat) : ∀ (ks : List Nat) (s e : Nat), Tiles pos size ks s e →
+    ks.Pairwise (fun a b => pos a < pos b) := by
+  intro ks
+  induction ks with
+  | nil => intro _ _ _; exact List.Pairwise.nil
+  | cons k ks ih =>
+    intro s e ht
+    obtain ⟨h1, h2, h3⟩ := ht
+    refine List.pairwise_cons.mpr ⟨?_, ih _ _ h3⟩
+    intro m hm
+    have := tiles_mem pos size ks _ _ h3 m hm
+    omega
+
+/-- two lists strictly increasing in the same key with the same elements are equal -/
+theorem sorted_ext (key : Nat → Nat) : ∀ (l1 l2 : List Nat), l1.Pairwise (fun a b => key a < key b) →
+    l2.Pairwise (fun a b => key a < key b) → (∀ m, m ∈ l1 ↔ m ∈ l2) → l1 = l2 := by
+  intro l1
+  induction l1 with
+  | nil =>
+    intro l2 _ _ hm
+    symm; apply List.eq_nil_iff_forall_not_mem.mpr
+    intro a ha; exact absurd ((hm a).mpr ha) (by simp)
+  | cons a l1 ih =>
+    intro l2 h1 h2 hm
+    cases l2 with
+    | nil => exact absurd ((hm a).mp (by simp)) (by simp)
+    | cons b l2 =>
+      obtain ⟨ha, ht1⟩ := List.pairwise_cons.mp h1
+      obtain ⟨hb, ht2⟩ := List.pairwise_cons.mp h2
+      have hab : a = b := by
+        rcases List.mem_cons.mp ((hm a).mp (by simp)) with h | h
+        · exact h
+        · rcases List.mem_cons.mp ((hm b).mpr (by simp)) with h' | h'
+          · exact h'.symm
+          · have := ha b h'; have := hb a h; omega
+      subst hab
+      congr 1
+      apply ih l2 ht1 ht2
+      intro m
+      constructor
+      · intro hm1
+        rcases List.mem_cons.mp ((hm m).mp (List.mem_cons_of_mem _ hm1)) with h | h
+        · subst h; have := ha m hm1; omega
+        · exact h
+      · intro hm2
+        rcases List.mem_cons.mp ((hm m).mpr (List.mem_cons_of_mem _ hm2)) with h | h
+        · subst h; have := hb m hm2; omega
+        · exact h
+
+/-- **children lists correspond** under `φ` = "element at index `j` of the source's document order ↦ `j`-th object allocated" -/
+theorem copy_kids {h h' : Heap} {x c : Nat} (hg : Good2 h) (hc : copy h x = .ok (h', c)) :
+    ∃ φ : Nat → Nat, (∀ j k, (docOrder h x)[j]? = some k → φ k = h.next + j) ∧
+      ∀ i d, (docOrder h x)[i]? = some d → h'.kids (h.next + i) = (h.kids d).map φ := by
+  obtain ⟨⟨w, hwf⟩, hstr⟩ := hg
+  obtain ⟨w', st', inv, sinv⟩ := copy_invs hwf hstr hc
+  obtain ⟨_, hroot, hdoc, hlen⟩ := cinv_final inv
+  have hn : h'.next - h.next = w.size x := by
+    rw [← inv.len]
+    have hsz : w.size x ≤ h.cap + 1 := by have := hwf.size_cap x; omega
+    exact (pre_consec' hwf h.cap x hsz).1
+  have hlt := inv.lt
+  refine ⟨fun k => h.next + (w.pos k - w.pos x), ?_, ?_⟩
+  · intro j k hjk
+    have := (docOrder_elem hwf x hjk).2.1
+    show h.next + (w.pos k - w.pos x) = h.next + j
+    omega
+  · intro i d hid
+    obtain ⟨hind, hdpos, hisz⟩ := docOrder_elem hwf x hid
+    -- every child of `d` lies in the subtree of `x`, to the right of `d`
+    have hkid : ∀ k, k ∈ h.kids d → w.inSub x k ∧ w.pos d < w.pos k := by
+      intro k hk
+      have h1 := wf_kid_lt hwf hk
+      have h2 := hwf.kid_tree d k hk
+      have h3 := hwf.laminar x d hind.1.symm hind.2.1 hind.2.2
+      exact ⟨⟨by rw [h2, hind.1], by omega, by omega⟩, by omega⟩
+    have hclonepos : ∀ k, k ∈ h.kids d → w'.pos (h.next + (w.pos k - w.pos x)) = w.pos k - w.pos x := by
+      intro k hk
+      obtain ⟨_, hk1, hk2⟩ := (hkid k hk).1
+      rw [inv.clone_pos _ (by omega) (by omega)]; omega
+    apply sorted_ext w'.pos
+    · exact tiles_sorted _ _ _ _ _ (inv.wf.tiles (h.next + i))
+    · rw [List.pairwise_map]
+      refine (tiles_sorted _ _ _ _ _ (hwf.tiles d)).imp_of_mem ?_
+      intro a b ha hb hab
+      rw [hclonepos a ha, hclonepos b hb]
+      have := (hkid a ha).1.2.1; have := (hkid b hb).1.2.1
+      omega
+    · intro m
+      constructor
+      · intro hm
+        have hpm := inv.wf.kid_parent _ _ hm
+        have htm : w'.tree m = h.next := by
+          rw [inv.wf.kid_tree _ _ hm]; exact inv.clone_tree _ (by omega) (by omega)
+        have hmem := (docOrder_mem inv.wf hroot m).mpr htm
+        rw [hdoc, List.mem_range'_1] at hmem
+        obtain ⟨i', rfl⟩ : ∃ i', m = h.next + i' := ⟨m - h.next, by omega⟩
+        have hi'1 : 1 ≤ i' := by
+          cases i' with
+          | zero => rw [Nat.add_zero, hroot] at hpm; cases hpm
+          | succ n => omega
+        have hi'lt : i' < (docOrder h x).length := by rw [inv.len]; omega
+        have hd' : (docOrder h x)[i']? = some (docOrder h x)[i'] := List.getElem?_eq_getElem hi'lt
+        obtain ⟨π, hp1, hp2⟩ := sinv.par i' _ hd' hi'1
+        obtain ⟨hind', hdpos', _⟩ := docOrder_elem hwf x hd'
+        have hxd' : x ≠ (docOrder h x)[i'] := by intro hh; rw [← hh] at hdpos'; omega
+        have hinπ := (inSub_parent hwf hp1 x).mp ⟨hxd', hind'⟩
+        rw [hpm] at hp2
+        have hπd : π = d := by
+          apply hwf.inj π d (by rw [hinπ.1, hind.1])
+          have := Option.some.inj hp2; have := hinπ.2.1; omega
+        subst hπd
+        refine List.mem_map.mpr ⟨(docOrder h x)[i'], hwf.parent_kid _ _ hp1, ?_⟩
+        show h.next + (w.pos (docOrder h x)[i'] - w.pos x) = h.next + i'
+        omega
+      · intro hm
+        obtain ⟨k, hk, rfl⟩ := List.mem_map.mp hm
+        show h.next + (w.pos k - w.pos x) ∈ h'.kids (h.next + i)
+        have hkk := hkid k hk
+        have hkd := docOrder_at hwf x hkk.1
+        obtain ⟨π, hp1, hp2⟩ := sinv.par _ k hkd (by omega)
+        have : π = d := by
+          have := hwf.kid_parent d k hk
+          rw [this] at hp1; exact (Option.some.inj hp1).symm
+        subst this
+        apply inv.wf.parent_kid
+        rw [hp2]
+        congr 1
+        omega
+
+/-- **the isomorphism, assembled**: one map `φ` from the source's document order onto the clone's -/
+theorem copy_iso {h h' : Heap} {x c : Nat} (hg : Good2 h) (hc : copy h x = .ok (h', c)) :
+    ∃ φ : Nat → Nat, (∀ j k, (docOrder h x)[j]? = some k → φ k = h.next + j) ∧
+      docOrder h' c = (docOrder h x).map φ ∧
+      (∀ d, d ∈ docOrder h x → h'.kind (φ d) = h.kind d ∧ h'.val (φ d) = h.val d ∧ h'.kids (φ d) = (h.kids d).map φ) ∧
+      (∀ d, d ∈ docOrder h x → d ≠ x → ∃ π, h.parent d = some π ∧ π ∈ docOrder h x ∧ h'.parent (φ d) = some (φ π)) := by
+  obtain ⟨φ, hφ, hkids⟩ := copy_kids hg hc
+  have hpar := copy_parents hg hc
+  obtain ⟨rfl, w', st', inv⟩ := copy_cinv hg hc
+  obtain ⟨_, hroot, hdoc, hlen⟩ := cinv_final inv
+  refine ⟨φ, hφ, ?_, ?_, ?_⟩
+  · apply List.ext_getElem
+    · rw [hlen, List.length_map]
+    · intro i h1 h2
+      rw [List.getElem_map]
+      have hi : i < (docOrder h x).length := by rw [← hlen]; exact h1
+      rw [hφ i _ (List.getElem?_eq_getElem hi)]
+      have : (docOrder h' h.next)[i]? = some (h.next + i) := by
+        rw [hdoc, List.getElem?_range' (by rw [← inv.len]; exact hi)]; simp
+      rw [List.getElem?_eq_getElem h1] at this
+      exact Option.some.inj this
+  · intro d hd
+    obtain ⟨i, hi, rfl⟩ := List.getElem_of_mem hd
+    have hid := List.getElem?_eq_getElem hi
+    rw [hφ i _ hid]
+    exact ⟨(inv.img i _ hid).1, (inv.img i _ hid).2, hkids i _ hid⟩
+  · intro d hd hdx
+    obtain ⟨i, hi, rfl⟩ := List.getElem_of_mem hd
+    have hid := List.getElem?_eq_getElem hi
+    have hi1 : 1 ≤ i := by
+      cases i with
+      | zero =>
+        exfalso; apply hdx
+        have h0 : (docOrder h x)[0]? = some x := by unfold docOrder; rw [pre_head]; rfl
+        rw [hid] at h0; exact Option.some.inj h0
+      | succ n => omega
+    obtain ⟨π, j, hp1, hj, _, hp2⟩ := hpar i _ hi1 hid
+    refine ⟨π, hp1, List.mem_of_getElem? hj, ?_⟩
+    rw [hφ i _ hid, hφ j π hj]; exact hp2
 
 end BS.Heap
